@@ -24,7 +24,8 @@ class Task:
 
 
 class Scheduler:
-    def __init__(self, tasks, schedule=None, abandon=None, reruns=None, max_events=5000):
+    def __init__(self, tasks, schedule=None, abandon=None, reruns=None, max_events=5000, on_rerun=None):
+        self.on_rerun = on_rerun        # called with the task name between a finished run and its re-run
         self.tasks = list(tasks)
         self.schedule = list(schedule or [0])
         self.abandon = {a["task"]: dict(a) for a in (abandon or [])}
@@ -65,6 +66,8 @@ class Scheduler:
             if self.reruns.get(t.name):
                 self.reruns[t.name] -= 1
                 t.state = "new"
+                if self.on_rerun is not None:
+                    self.on_rerun(t.name)
                 self._emit("RERUN", t.name)
             return
         except Exception as e:  # noqa: BLE001 - classified by the oracle, never swallowed
